@@ -221,3 +221,31 @@ CLAIMED["C19"]["technique"] += ", file-named-by-table-key rule, mark-after-repla
 CLAIMED["C19"]["text"] += "; a flush marks the NEW dictionary dirty; every Decode in the record loop writes into a variable declared in the loop; the index of a snapshot file is a whole-string strconv parse of its suffix with the error tested"
 CLAIMED["C20"]["technique"] += ", Done-of-a-cancellable-lane rule, no-package-table-aliased-by-a-mutated-instance-field rule, listener-published-before-anything-else rule"
 CLAIMED["C20"]["text"] += "; no goroutine waits on Done() of a lane derived without cancellation; no instance field that is modified holds a package-level map; between net.Listen and the store of the listener nothing of the package runs"
+
+# --- additions after the seventh batch of seeded changes (DESIGN.md §5.1g)
+CLAIMED["C01"]["technique"] += ", invalid-parse-returns-length-0 rule for the parser entry (R-C01-invalid-zero-length), transformers are not writers in the length-prefix rule"
+CLAIMED["C01"]["text"] += "; the parser entry returns a non-zero length only behind the test of its validity result; a helper that hands back a transformed payload does not count as writing the payload whose length was rendered"
+CLAIMED["C02"]["technique"] += ", append-onto-nil clause of the non-nil payload rule"
+CLAIMED["C02"]["text"] += "; a string payload built by appending onto nil is non-nil only if something non-empty is appended"
+CLAIMED["C03"]["technique"] += ", end-node precondition of the pop helpers at their call sites (R-list-pop-precondition), wrap-around clause for sums of two client numbers in the bound analysis"
+CLAIMED["C03"]["text"] += "; a helper that takes a node off one end of a list is handed the node read from that end with no link write in between"
+CLAIMED["C04"]["technique"] += ", shrink-by-the-proved-factor rule for the dictionary (R-dict-shrink-factor)"
+CLAIMED["C04"]["text"] += "; the removal primitive shrinks the table to exactly len/2"
+CLAIMED["C05"]["technique"] += ", shrink-factor rule, operand-determined-per-iteration rule (R-C05-operand-per-iteration), type-written-with-payload rule (R-payload-store-typed), destination-settled-on-every-path rule for STORE forms (R-store-dest-settled)"
+CLAIMED["C05"]["text"] += "; no read-only set variable is carried round the operand loop; a payload goes into a looked-up key object only after its type was asked for or written; a STORE form removes or creates its destination on every non-error path"
+CLAIMED["C06"]["technique"] += ", shrink-factor rule, type-written-with-payload rule, destination-settled rule, pop-helper precondition"
+CLAIMED["C06"]["text"] += "; SORT … STORE removes or creates its destination on every non-error path; type flag and payload of an existing key object change together"
+CLAIMED["C09"]["technique"] += ", rejection-keeps-the-mode rule for the queueing path (R-C09-reject-keeps-mode)"
+CLAIMED["C09"]["text"] += "; nothing on the queueing path ends MULTI or replaces the watches"
+CLAIMED["C13"]["technique"] += ", wrap-around clause for sums of two client numbers (A8)"
+CLAIMED["C13"]["text"] += "; a sum of two client-controlled numbers bounds a slice only behind a comparison of the sum with an addend (or upper bounds on both)"
+CLAIMED["C14"]["technique"] += ", remembered-snapshot invalidation rule for the database set (R-C14-table-cache), handlers-use-the-bound-database rule (R-C14-handler-bound-db)"
+CLAIMED["C14"]["text"] += "; no handler code reads the connection's current-database field; a second container of databases is written wherever the table grows"
+CLAIMED["C15"]["technique"] += ", compared-before-narrowed clause for HELLO"
+CLAIMED["C15"]["text"] += "; the protocol version is compared with 2 and 3 as the client sent it, not after a narrowing conversion"
+CLAIMED["C16"]["technique"] += ", added-field rule for the shared structures (R-C16-new-shared-field: one kind of writer goroutine, or every write under a mutex)"
+CLAIMED["C16"]["text"] += "; a field added to a shared structure since the guarded-by table was confirmed has one kind of writer goroutine or is written under a mutex"
+CLAIMED["C19"]["technique"] += ", cut-by-position clause of the discovery parse, no-path-no-walk rule (R-C19-discover-needs-path), remembered-snapshot invalidation rule"
+CLAIMED["C19"]["text"] += "; the directory walk at start-up is dominated by the test of the persist path itself against the empty string; the index is parsed from the name cut off by position"
+CLAIMED["C20"]["technique"] += ", add-then-go rule for the termination WaitGroup, no-path-no-walk rule"
+CLAIMED["C20"]["text"] += "; every Add to the termination WaitGroup is followed by a go statement before the function adds again or returns"
